@@ -74,7 +74,7 @@ func vRoots() []vCodec {
 		&ledgercore.AccountTotals{}, &ledgercore.OnlineRoundParamsData{}, &ledgercore.StateProofVerificationContext{},
 		&trackerdb.BaseAccountData{}, &trackerdb.BaseOnlineAccountData{}, &trackerdb.ResourcesData{},
 		&trackerdb.TxTailRound{}, &trackerdb.CatchpointFirstStageInfo{},
-		&encoded.BalanceRecordV6{}, &encoded.KVRecordV6{}, &encoded.OnlineAccountRecordV6{}, &encoded.OnlineRoundParamsRecordV6{},
+		&encoded.KVRecordV6{}, // the other ledger/encoded records carry msgp.Raw payloads (their payload types are roots above)
 		// crypto
 		&crypto.OneTimeSignature{}, &crypto.MultisigSig{}, &crypto.Signature{}, &crypto.VrfProof{}, &crypto.Digest{},
 		&crypto.HeartbeatProof{}, &crypto.OneTimeSignatureVerifier{},
@@ -153,6 +153,7 @@ type vWalker struct {
 var vUnmarshalerT = reflect.TypeOf((*msgp.Unmarshaler)(nil)).Elem()
 var vMicroAlgosT = reflect.TypeOf(basics.MicroAlgos{})
 var vHashTypeT = reflect.TypeOf(crypto.HashType(0))
+var vRawT = reflect.TypeOf(msgp.Raw(nil))
 
 func vHasMethods(t reflect.Type) bool {
 	return t.Name() != "" && t.PkgPath() != "" && reflect.PointerTo(t).Implements(vUnmarshalerT)
@@ -233,6 +234,10 @@ const vMaxComplex = 5
 
 // occurrence of type t inside the generated method of a type of package P (root = that type)
 func (w *vWalker) expand(t reflect.Type, P string, root reflect.Type, tagBound, tagPkg string) *vSch {
+	if t == vRawT {
+		w.errf("msgp.Raw (untyped msgpack passthrough) is outside the schema language")
+		return &vSch{K: kBool, T: t}
+	}
 	if t == vMicroAlgosT {
 		return &vSch{K: kRef, Ref: w.ref(t), T: t}
 	}
@@ -519,8 +524,8 @@ func vCoqBool(b bool) string {
 
 func vRegistryBound(pkg, expr string) (int64, error) {
 	if m, ok := verifbounds.Exprs[pkg]; ok {
-		if v, ok := m[expr]; ok {
-			return int64(v), nil
+		if f, ok := m[expr]; ok {
+			return int64(f()), nil
 		}
 	}
 	return 0, fmt.Errorf("expression not registered (verifbounds)")
@@ -593,8 +598,8 @@ func TestVerifC40Gen(t *testing.T) {
 	}
 	side := vSide{Bounds: map[string]int64{}, Directives: map[string]string{}, MaxDepth: msgp.DefaultUnmarshalState.AllowableDepth}
 	for pkg, m := range verifbounds.Exprs {
-		for e, v := range m {
-			side.Bounds[pkg+"|"+e] = int64(v)
+		for e, f := range m {
+			side.Bounds[pkg+"|"+e] = int64(f())
 		}
 	}
 	for pkg, m := range verifbounds.Directives {
